@@ -5,7 +5,20 @@ from . import runprop
 def crash(ctx, scenarios, points):
     found = False
     for sc in scenarios:
-        recs, summary = runprop.run(ctx, "crash", "scen:" + sc, ctx.seed, ["-points", str(points), "-prefix", "snapshot"], timeout=2400)
+        try:
+            recs, summary = runprop.run(ctx, "crash", "scen:" + sc, ctx.seed, ["-points", str(points), "-prefix", "snapshot"], timeout=2400)
+        except Exception as e:
+            msg = getattr(e, "driver_error", "")
+            if "outcomes [" in msg and msg.count("commit") >= 2:
+                # more than one COMMIT while one height is applied: part of the block becomes durable on its own
+                ctx.add_violation("applying one block of scenario %s (seed %d) commits more than one SQL transaction (%s): effects of the block are durable before "
+                                  "(or without) its sync height, so a crash or failure between the commits leaves a database that is no replayed prefix" % (sc, ctx.seed, msg),
+                                  {"kind": "crash", "scenario": sc, "seed": ctx.seed, "driver": msg,
+                                   "replay_cmd": "harness: runprop crash -work <dir> -scenario scen:%s -seed %d -points 8 (reference run)" % (sc, ctx.seed)},
+                                  name="two-commits")
+                found = True
+                continue
+            raise
         ctx.coverage.setdefault("distribution", {}).setdefault("crash_runs", []).append(dict(summary, scenario=sc))
         n = int(summary.get("points_run", 0))
         ctx.coverage["evaluations"] = ctx.coverage.get("evaluations", 0) + n
